@@ -7,7 +7,15 @@ EXC_CODES = [(TypeError, 1), (KeyError, 3), (RuntimeError, 4), (FileNotFoundErro
 
 
 def exc_code(e):
-    """exception instance -> class code of Codec.exc_code (most specific class first)"""
+    """exception instance -> class code of Codec.exc_code (most specific class first).
+    A RecursionError anywhere in the cause/context chain is the code's way of running out of fuel (code 9),
+    even when an `except Exception` re-raised it as something else."""
+    seen, cur = 0, e
+    while cur is not None and seen < 50:
+        if isinstance(cur, RecursionError):
+            return 9
+        cur = cur.__cause__ or cur.__context__
+        seen += 1
     for cls, code in EXC_CODES:
         if type(e) is cls:
             return code
